@@ -681,6 +681,34 @@ example : @TaxTotalsSrc.Total_Merge faithfulOps (some tC) tA = some (tC.merge tA
 example : (oneRow "VAT" false r10s ⟨300, 2⟩ (some ⟨156, 2⟩) ⟨0, 0⟩ ⟨456, 2⟩ ⟨0, 0⟩).negate.categories.map (·.surcharge) =
     [some ⟨-156, 2⟩] := by decide +kernel
 
+/-! ### `Total.Calculate` (as `DocumentRef.Calculate` uses it): the regenerated pieces are `Merge.calc*` -/
+
+/-- **the regenerated `calculateBaseCategoryTotal` is `calcCategory`**, for any number of rate groups -/
+theorem src_calculateBaseCategoryTotal (t : Total) (ct : CategoryTotal) (zero : Amount) (rr : String) :
+    (@TaxTotalsSrc.Total_calculateBaseCategoryTotal faithfulOps t ct zero rr).2 =
+      calcCategory (rr == "currency") zero ct := by
+  rw [@calcBase_eq faithfulOps]; exact calcCatG_faithful zero rr ct
+
+/-- **the regenerated `calculateFinalSum`** is the fold of `calcSumStep` from the empty list and zero -/
+theorem src_calculateFinalSum (t : Total) (zero : Amount) (rr : String) :
+    (@TaxTotalsSrc.Total_calculateFinalSum faithfulOps t zero rr).2 =
+      ⟨(t.categories.foldl (calcSumStep (rr == "currency") zero) ([], zero)).1,
+       (t.categories.foldl (calcSumStep (rr == "currency") zero) ([], zero)).2, t.sumP⟩ := by
+  rw [@calcFinalSum_eq faithfulOps, sumStep_fold]; simp
+
+/-- **the regenerated `round`** is `roundCategory` on every category, the sum kept as the precise sum -/
+theorem src_round (t : Total) (zero : Amount) :
+    (@TaxTotalsSrc.Total_round faithfulOps t zero).2 =
+      ⟨t.categories.map (roundCategory zero.exp), t.sum.rescale zero.exp, t.sum⟩ := by
+  rw [@round_eq faithfulOps]; rfl
+
+/-- **`calculateFinalSum` then `round` is `Total.calculate`** of Model/Merge.lean (the body of the Go
+    `Total.Calculate` after its nil test; `e` = the currency's subunit digits, `currency` = "the rule
+    key is `currency`"), for summaries of any shape -/
+theorem src_Calculate_body (t : Total) (e : ℕ) (rr : String) :
+    (@TaxTotalsSrc.Total_round faithfulOps (@TaxTotalsSrc.Total_calculateFinalSum faithfulOps t ⟨0, e⟩ rr).2 ⟨0, e⟩).2 =
+      t.calculate e (rr == "currency") := Calculate_body_faithful t e rr
+
 /-! ### the headline theorems, stated over the regenerated definitions
 
 The same statements as `merge_figures_add`, `merge_order_independent`,
